@@ -309,7 +309,7 @@ def _name_violation(ctx, r, sks):
                                        f"stores={sk['stores']} outadds={sk['outadds']} outinit={sk['outinit']} bounds={sk['_doc']['bounds']} axes={sk['_doc']['axes']}")
 
 
-def run(ctx):
+def _run(ctx):
     from harness import core, kernelsk, twin
 
     # ---------------------------------------------------------------- 1. schedule model on the extracted skeletons
@@ -520,3 +520,21 @@ def _dynamic_part(ctx, orders, deferred):
                        "non-trivial = run with >= 2 frames or a kernel execution; distinct = distinct (family, process) / (kernel, schedule)")
     ctx.assume("schedules of the real thread pool are sampled (6 thread counts), the enumeration is on the model whose skeleton is extracted from the source")
     ctx.assume("bit-identity is claimed for one installation (same numba/LLVM/BLAS build and CPU), as the property does")
+
+
+def run(ctx):
+    """A problem of the harness on a tree that has already been refuted must not turn the verdict into a machinery failure:
+    violations recorded so far stand (exit 1); without any violation the problem is reported as what it is (exit 2)."""
+    import traceback
+
+    from harness import core as _core
+    try:
+        _run(ctx)
+    except _core.MachineryFailure as e:
+        if not ctx.violations:
+            raise
+        ctx.cov["machinery_problem_after_violations"] = str(e)[:500]
+    except Exception:
+        if not ctx.violations:
+            raise
+        ctx.cov["machinery_problem_after_violations"] = traceback.format_exc()[-800:]
